@@ -1841,6 +1841,10 @@ func ruleG8(c *Ctx, r *Report, scope map[*ssa.Function]bool, invariants map[stri
 						continue
 					}
 				} else if where := ts.guardedByLen(f, b, t, X); where != "" {
+					if weak := ts.guardArithmetic(f, ins, idx, X, isSlicing); weak != "" {
+						r.Bad("G8", key, c.Pos(ins.Pos()), "the untrusted index is compared with the length of the slice, but "+weak+": index out of range panic")
+						continue
+					}
 					r.OK("G8", key, c.Pos(ins.Pos()), fmt.Sprintf("the untrusted index (%d bits, from %s) is compared with the length of the slice at %s", t.bits, rootNames(t), where))
 					continue
 				}
@@ -2913,4 +2917,156 @@ func ruleLastInterval(c *Ctx, r *Report) {
 			r.Bad("O-LAST", key, c.Pos(st.Pos()), "no interval end is the track's sample count: the tail of the track is not covered")
 		}
 	}
+}
+
+// guardArithmetic: given that the index (or slice bound) into X is guarded by a comparison with the length,
+// check the constants: from the dominating rejecting tests `A op B` that mention the length, derive facts
+// A-B <= 0; the use needs idx - len + 1 <= 0 (index) or bound - len <= 0 (slicing). When the difference between
+// what is needed and what a fact gives is a constant, it must be <= 0. Returns a non-empty reason when a guard
+// is provably too weak (its constant leaves room beyond the end); "" when fine or not decidable this way.
+func (ts *taintState) guardArithmetic(f *ssa.Function, use ssa.Instruction, idx, X ssa.Value, slicing bool) string {
+	b := use.Block()
+	var lenLeaf ssa.Value
+	var reps []ssa.Value
+	isLenV := func(v ssa.Value) bool {
+		v = stripConv(v)
+		return isLenOf(v, X) || isLenField(ts.c, v, X)
+	}
+	canon := func(v ssa.Value) ssa.Value {
+		if isLenV(v) {
+			if lenLeaf == nil {
+				lenLeaf = v
+			}
+			return lenLeaf
+		}
+		for _, q := range reps {
+			if sameSSA(q, v) {
+				return q
+			}
+		}
+		reps = append(reps, v)
+		return v
+	}
+	target := linOf(idx, canon, 0)
+	// collect facts first so that lenLeaf is known
+	type fact struct {
+		lf  linForm
+		pos token.Pos
+		blk *ssa.BasicBlock
+	}
+	var facts []fact
+	for d := b; d != nil; d = d.Idom() {
+		id := d.Idom()
+		if id == nil || len(id.Instrs) == 0 {
+			continue
+		}
+		ifi, ok := id.Instrs[len(id.Instrs)-1].(*ssa.If)
+		if !ok {
+			continue
+		}
+		bo, ok := ifi.Cond.(*ssa.BinOp)
+		if !ok {
+			continue
+		}
+		// which arm continues to d?
+		truth := false
+		switch {
+		case id.Succs[0] == d && len(d.Preds) == 1:
+			truth = true
+		case id.Succs[1] == d && len(d.Preds) == 1:
+			truth = false
+		case blockLeaves(id.Succs[0]):
+			truth = false
+		case blockLeaves(id.Succs[1]):
+			truth = true
+		default:
+			continue
+		}
+		op := bo.Op
+		if !truth {
+			op = map[token.Token]token.Token{token.LSS: token.GEQ, token.GEQ: token.LSS, token.GTR: token.LEQ, token.LEQ: token.GTR}[op]
+		}
+		A, B := linOf(bo.X, canon, 0), linOf(bo.Y, canon, 0)
+		var lf linForm
+		switch op {
+		case token.LEQ: // A <= B
+			lf = A.add(B, -1)
+		case token.LSS: // A < B  => A - B + 1 <= 0
+			lf = A.add(B, -1)
+			lf.k++
+		case token.GEQ: // A >= B => B - A <= 0
+			lf = B.add(A, -1)
+		case token.GTR:
+			lf = B.add(A, -1)
+			lf.k++
+		default:
+			continue
+		}
+		facts = append(facts, fact{lf, bo.Pos(), id})
+	}
+	if lenLeaf == nil {
+		return ""
+	}
+	need := target.add(linForm{cs: map[ssa.Value]int64{lenLeaf: 1}}, -1)
+	if !slicing {
+		need.k++
+	}
+	if _, has := need.cs[lenLeaf]; !has {
+		return ""
+	}
+	best := ""
+	for _, fc := range facts {
+		if _, has := fc.lf.cs[lenLeaf]; !has {
+			continue
+		}
+		if fc.lf.cs[lenLeaf] != need.cs[lenLeaf] {
+			continue
+		}
+		diff := need.add(fc.lf, -1)
+		if len(diff.cs) != 0 {
+			continue
+		}
+		// field leaves must not be stored to between the test and the use
+		stale := false
+		for v := range need.cs {
+			if ld, ok := v.(*ssa.UnOp); ok && ld.Op == token.MUL {
+				if storedBetween(f, ld.X, fc.blk, use) {
+					stale = true
+				}
+			}
+		}
+		if stale {
+			continue
+		}
+		if diff.k <= 0 {
+			return "" // this test is sufficient
+		}
+		best = fmt.Sprintf("the test at %s leaves room for an index %d beyond the end (its constant is too small by %d)", ts.c.Pos(fc.pos), diff.k-1, diff.k)
+	}
+	return best
+}
+
+// storedBetween: a store to addr in a block dominated by `from` that dominates the use (or in the use block before it).
+func storedBetween(f *ssa.Function, addr ssa.Value, from *ssa.BasicBlock, use ssa.Instruction) bool {
+	for _, bb := range f.Blocks {
+		for _, ins := range bb.Instrs {
+			st, ok := ins.(*ssa.Store)
+			if !ok || !sameAddr(st.Addr, addr) {
+				continue
+			}
+			if !from.Dominates(bb) {
+				continue
+			}
+			if bb == use.Block() {
+				if instrBefore(st, use) {
+					return true
+				}
+				continue
+			}
+			if bb.Dominates(use.Block()) || reaches(bb, use.Block()) {
+				return true
+			}
+		}
+	}
+	return false
 }
